@@ -69,6 +69,10 @@ Lemma release_config : nochecks_of CRelease = true /\
 Proof. split; [reflexivity|]. intros []; vm_compute; split; reflexivity. Qed.
 Lemma base_mode_wrapv : m_wrapv base_mode = true.
 Proof. reflexivity. Qed.
+(* every compiler entry of the GNU family passes -fwrapv in its effective base flags (scraped; an override of
+   cflags_base in one entry - clang's, hence zig cc's - makes this false and with it base_mode_wrapv) *)
+Lemma every_gnu_compiler_wraps : forallb (fun b => b) gnu_family_base_has_fwrapv = true /\ m_wrapv base_mode = true.
+Proof. split; reflexivity. Qed.
 
 (* plain + - * and unary - never execute UB in the dialect the base flags select ... *)
 Lemma arith_result_base t r : arith_result base_mode t r <> None.
